@@ -9,7 +9,7 @@ import random
 
 from harness import common
 from checks import var_common as vc
-from checks.var_common import text, sweep
+from checks.var_common import text, sweep, strobj
 
 PID = 'C03'
 ALPHA = ['&', '<', '>', '"', "'", 'a', '\xe9', '\U0001F600', '\n']
@@ -58,6 +58,10 @@ def sweeps(tier, rng):
     cvals = [text(chr(c)) for c in cps if not 0xD800 <= c <= 0xDFFF]
     out.append(sweep(cvals, [['html_quote']], forms=('entity',)))
     out.append(sweep(cvals[::7], [[]], fmts=('', 'html-quote'), forms=('name',)))
+    # values that are not strings: inserted as their str() form, which is escaped like any text
+    ov = [strobj(x) for x in ('R&D', "<0.05 'p'", 'a"b', 'x>y & z', 'plain', "it's", '<<>>', 'A&B<C>"D\'E')]
+    out.append(sweep(ov, [['html_quote'], []], fmts=('', 'html-quote'), forms=('entity', 'name', 'expr')))
+    out.append(sweep(ov, [['html_quote']], sizes=(40,), nulls=(False, True), forms=('name',)))
     # random longer strings dense in specials
     rs = [''.join(rng.choice(ALPHA + ['b', ' ', ';', '#']) for _ in range(rng.randint(5, 40)))
           for _ in range(300 if tier == 'quick' else 5000)]
